@@ -25,6 +25,7 @@ OL_CLASS_LOADER: _ol_reserved_name = "__ol_loader_{}"
 OL_CLASS_MEMBER_KEY: _ol_reserved_name = "__ol_key_{}"
 OL_CLASS_MEMBER_VALUE: _ol_reserved_name = "__ol_value_{}"
 OL_IMPORT_TMP: _ol_reserved_name = "__ol_mod_{}"
+OL_CLASS_HOOK: _ol_reserved_name = "__ol_hook_{}"
 
 
 def ol_name(name: _ol_reserved_name):
